@@ -6,12 +6,12 @@ from iOpt.solver import Solver
 
 LEVEL = "exploration"
 RULE = ("seeded scenarios (all objective families with emphasis on ties and scale extremes; N=1..5; call patterns Solve / batches+Solve / "
-        "step-by-step / repeated Solve; refinement on and off). At every moment - after each API step, inside each listener callback, "
+        "step-by-step / repeated Solve / refinement followed by further global iterations and refinements; refinement on and off). At every moment - after each API step, inside each listener callback, "
         "inside each objective call, on the returned Solution and again after unrelated solvers have run - GetResults() is compared "
         "with the objective's call log. Non-trivial: >= 3 trials and >= 5 moments checked; distinct = (family, N, pattern kind, "
         "trial count, index of the best trial).")
 ASSUMPTIONS = ["inside-evaluation moments are checked during the global phase only (mid-refinement the simplex legitimately holds better points)",
-               "after refinement the reported point must be an evaluated point whose value is the objective there and not worse than the best global trial",
+               "after refinement the reported point must be an evaluated point whose value is the objective there, not worse than the best global trial, and - at the moments the statement lists - not worse than anything the objective was evaluated at in either phase",
                "ties: any of several equal minima is accepted"]
 SIZES = {"quick": 400, "thorough": 7000}
 TIE_FAMS = ["const", "stairs", "rcos", "scaled", "cones", "noise", "linear", "sines", "outside", "needle", "discont", "wells",
@@ -39,6 +39,29 @@ def cases(tier, seed):
         else:
             scn["pk"] = "resolve"
             scn["pattern"] = [["solve"], ["solve"]] + ([["iter", 2], ["solve"]] if rng.random() < 0.5 else [])
+        out.append(scn)
+    # the global search goes on after a local refinement has improved the optimum
+    nr = 120 if tier == "quick" else 1500
+    for i in range(nr):
+        rng = scenario.rng_for(seed, "C04R", i)
+        scn = scenario.gen_scenario(rng, fams=["sines", "wells", "cones", "rcos", "needle", "outside", "linear", "scaled"], max_iters=120,
+                                    dims=(1, 2, 2, 3, 3, 4))
+        k1 = int(rng.integers(5, 60))
+        scn["eps"] = max(scenario.eps_floor(scn["N"], scn["m"]) * 1.01, min(scn["eps"], 1e-3))
+        scn["iters"] = k1
+        u = rng.random()
+        more = [["iter", int(v)] for v in rng.integers(1, 12, int(rng.integers(1, 8)))]
+        if u < 0.4:
+            scn["refine"] = True
+            scn["pattern"] = [["solve"]] + more
+        elif u < 0.7:
+            scn["refine"] = False
+            scn["iters"] = k1 + 200
+            scn["pattern"] = [["iter", k1], ["local", int(rng.integers(3, 80))]] + more + [["local", 5]] + more[:2]
+        else:
+            scn["refine"] = True
+            scn["pattern"] = [["solve"], ["set", "itersLimit", k1 + int(rng.integers(5, 80))], ["solve"]] + more
+        scn["pk"] = "refine-continue"
         out.append(scn)
     # workloads written by the repository's authors (shipped examples, solving tests) under the same oracle
     out += ambient.ambient_cases(tier)
@@ -69,7 +92,8 @@ def run_case(scn):
         mon.check_any(record.snap_solution(holder["solver"]().GetResults()), "after:" + step[0])
 
     # the solver is created inside run_solver; reach it through the problem
-    prob, info = record.make_problem(scn, cap=scn["iters"] + sum(s[1] for s in scn["pattern"] if s[0] == "iter") + 8)
+    lims = [s[2] for s in scn["pattern"] if s[0] == "set" and s[1] == "itersLimit"]
+    prob, info = record.make_problem(scn, cap=max([scn["iters"]] + lims) + sum(s[1] for s in scn["pattern"] if s[0] == "iter") + 8)
     holder["mon"] = moments.OptimumMonitor(prob)
     holder["solver"] = lambda: prob.solver
     t = record.run_solver(scn, listener=True, inside_hook=inside, on_event=on_event, after_step=after_step, problem=prob)
@@ -112,6 +136,10 @@ def run_case(scn):
     obs["best_is_first_trial"] = int(best_idx == 0 and len(done) > 2)
     obs["best_is_last_trial"] = int(best_idx == len(done) - 1 and len(done) > 2)
     obs["refined_runs"] = int(mon.refined())
+    if scn.get("pk") == "refine-continue" and mon.refined():
+        first_local = min(e["i"] for e in t.log if e["ph"] == "l")
+        obs["global_trials_after_a_refinement"] = len([e for e in t.log if e["ph"] == "g" and e["i"] > first_local])
+        obs["moments_after_a_refinement"] = getattr(mon, "refined_moments", 0)
     nt = len(done) >= 3 and nm >= 5
     return {"violations": viol, "obs": obs, "nontrivial": nt,
             "key": "%s|%d|%s|%d|%d" % (scn["obj"]["fam"], scn["N"], scn["pk"], len(done), best_idx) if nt else None,
@@ -124,7 +152,7 @@ def finalize(obs, tier, stats):
         return "only %d moments checked (< %d)" % (obs.get("moments", 0), need), {}
     miss = [k for k in ("moments_inside-evaluation", "moments_callback:iter", "moments_callback:stop", "moments_after:iter",
                         "moments_returned-solution", "moments_returned-solution-after-other-solvers", "tie_moments",
-                        "refined_runs", "best_is_first_trial") if not obs.get(k)]
+                        "refined_runs", "best_is_first_trial", "global_trials_after_a_refinement") if not obs.get(k)]
     if miss:
         return "never observed: %s" % miss, {}
     return None, {}
